@@ -45,6 +45,8 @@ FUNCS = {
             # ... and also no octets still in the connection buffer (recorded finding: see known_findings.json)
             ('closes_only_when_drained', 'implies(closed(self) and not old(closed(self)), drained(self))', ['C09']),
             ('unchanged_unless_closing', 'implies(not (self._in_term and idle_spec(self)), close_fields_kept(self))', []),
+            ('tls_socket_dropped_on_close', 'implies(not old(closed(self)) and closed(self), self._Connection__s_tls is None) and '
+                                            'implies(old(closed(self)), eqv(self._Connection__s_tls, old(self._Connection__s_tls)))', []),
             ('timers_cleared_on_close', 'implies(self._in_term and idle_spec(self) and not old(closed(self)), '
                                         'self._keepalive_timer_id is None and self._idle_timer_id is None and '
                                         'ghost.src_delay == old(ghost.src_delay) and ghost.src_cb == old(ghost.src_cb))', []),
